@@ -18,14 +18,18 @@ RULE = ('one case = a fault-free prefix history (1..3 commands, 1..2 users) and 
         'snapshot object with that object temporarily unreadable (download fails, exists denies it, listing still shows it). After each fault, fresh fault-free '
         'processes must find: listed snapshots = acknowledged ones (+ the victim\'s if its object exists / - a subset of the deleted), '
         'every listed snapshot complete under the independent reader, list + new snapshot + clean succeed, afterwards the family\'s '
-        'chunk objects == referenced chunks and every listed snapshot restores to its captured contents. evaluations = fault points '
+        'chunk objects == referenced chunks and every listed snapshot restores to its captured contents. One third of the cases run on the real '
+        'Local adapter over the FS seam: crash points are then the adapter\'s syscalls (torn writes included) and no file whose content is '
+        'incomplete may be visible under a name that listing / exists / download would show. evaluations = fault points '
         'executed; distinct_nontrivial = distinct post-fault store states (digest of names) over all fault points')
 COMPONENTS = {
-    'real': ['replicat.repository.Repository (snapshot, delete_snapshots, clean, restore, list_snapshots)', 'replicat.utils.adapters', 'src/adapters.cpp (shim)'],
-    'stub': ['OS thread scheduling', 'clocks', 'os.urandom', 'object store (SimStore: atomic objects, crash = freeze at a commit point)'],
+    'real': ['replicat.repository.Repository (snapshot, delete_snapshots, clean, restore, list_snapshots)', 'replicat.utils.adapters', 'src/adapters.cpp (shim)',
+             'replicat.backends.local.Local incl. backoff (Local profile, about one third of the cases)'],
+    'stub': ['OS thread scheduling', 'clocks', 'os.urandom', 'object store (SimStore: atomic objects, crash = freeze at a commit point)',
+             'file-system syscalls under Local (FS seam: crash before any syscall, torn write, persistent errno; tracks files whose content is incomplete)'],
     'reference': ['sim/ref_format.py', 'sim/history.py model'],
 }
-ASSUMPTIONS = ['process-kill crash model (completed backend mutations persist)', 'SimStore objects are atomic; torn local files are covered by the Local FS-seam profile of C12/C13',
+ASSUMPTIONS = ['process-kill crash model (completed backend mutations / syscalls persist, a write in progress may be torn; no power-loss model)',
                'enumeration is complete per sampled victim run, sampled over runs']
 PROBES = ['local_backend', 'torn_write', 'fs_errno', 'victim_snapshot', 'victim_delete', 'victim_clean', 'crash', 'crash_inflight_commit', 'fail_before', 'fail_after', 'unavailable', 'orphans_collected', 'victim_snapshot_visible_after_lost_ack']
 TIERS = {'quick': {'budget_s': 55, 'batch': 1}, 'thorough': {'budget_s': 900, 'batch': 4}}
@@ -283,6 +287,7 @@ def run_case(case):
             res = H.result()
             res['nontrivial'] = False
             res['evaluations'] = 0
+            res['sample'] = None
             return res
         if not r.ok:
             H.flag('command-failed', f'fault-free {victim["op"]} failed: {r.outcome()} {r.exc or r.hang!r}', victim=victim['op'])
